@@ -129,7 +129,7 @@ class GridMachine(BaseCheck):
             for rw in rows:
                 if k.random() < 0.3:
                     rw['lst'] = True
-        case = {'class': cls, 'gver': gver, 'rows': rows, 'plain_colmeta': k.random() < 0.4,
+        case = {'class': cls, 'gver': gver, 'rows': rows, 'plain_colmeta': k.random() < 0.4, 'front_column': k.random() < 0.3,
                 'lookup_every': k.choice([1, 1, 2, 3, 0]),
                 'ninit': k.choice([0, 0, 1, 2, 3, 4, nrows, 2 * nrows if cls != 'unique-str' else nrows])}
         kinds = ['append', 'insert', 'extend', 'iadd', 'set', 'del', 'delslice', 'pop', 'popi', 'remove',
@@ -245,6 +245,9 @@ class GridMachine(BaseCheck):
         hs = self.hszinc
         g = hs.Grid(version=case.get('gver'), metadata={'m1': 1, 'm2': hs.MARKER},
                     columns=[('id', []), ('n', [('unit', 'x')]), ('mk', [])])
+        if case.get('front_column'):
+            # a column placed explicitly in front: the order of columns is part of what a slice must reproduce
+            g.column.add_item('first', {'z': 1}, index=0)
         if case.get('plain_colmeta'):
             # column metadata assigned as a plain dict whose keys are not in alphabetical order (what the JSON
             # reader produces): derived grids must carry it over unchanged, order included
@@ -258,8 +261,16 @@ class GridMachine(BaseCheck):
             model.append(row)
         return g, model
 
+    expected_header = None
+
     def _execute(self, case):
         hs = self.hszinc
+        cols = [('id', []), ('n', [('unit', 'x')]), ('mk', [])]
+        if case.get('plain_colmeta'):
+            cols[2] = ('mk', [('zeta', 1), ('alpha', 2), ('mid', 3)])
+        if case.get('front_column'):
+            cols.insert(0, ('first', [('z', 1)]))
+        self.expected_header = ([('m1', 1), ('m2', hs.MARKER)], cols)
         own = self.own_clauses
         is14 = 'len' in own
         stats = {'class.' + case['class']: 1}
@@ -627,6 +638,15 @@ class GridMachine(BaseCheck):
                 if str(s.version) != str(g.version) or list(s.metadata.items()) != list(g.metadata.items()) \
                         or [(cn, list(cm.items())) for cn, cm in s.column.items()] != [(cn, list(cm.items())) for cn, cm in g.column.items()]:
                     return 'slice', {'slice': [a, b, c], 'why': 'version/metadata/columns differ'}
+                # ... and against the header known by construction, column by column, through iteration (the slice
+                # and its source could both be wrong in the same way)
+                if self.expected_header is not None:
+                    for gg, which in ((g, 'grid'), (s, 'slice')):
+                        got_cols = [(cn, [(kk, gg.column[cn][kk]) for kk in gg.column[cn]]) for cn in gg.column]
+                        got_meta = [(kk, gg.metadata[kk]) for kk in gg.metadata]
+                        if got_cols != self.expected_header[1] or got_meta != self.expected_header[0]:
+                            return 'slice', {'slice': [a, b, c], 'why': 'header of the %s differs from the one it was built with' % which,
+                                             'columns': [c_[0] for c_ in got_cols]}
             for row in rows:
                 if (row in g) != (row in model):
                     return 'member', {'why': '`in` differs', 'n': row.get('n')}
